@@ -22,6 +22,87 @@ impl SwCheck {
     fn mode_is_ranges(&self) -> bool {
         self.mode == SMode::Ranges
     }
+    /// "Does not hang" for nesting: for every nestable construct, nested in its first and in its last position, the
+    /// thread CPU time of loading the workspace and computing its diagnostics at depths 10, 14 and 18 (minimum of
+    /// three runs). Polynomial work grows by a small factor per step of 4 levels ((14/10)^3 = 2.7); work that
+    /// doubles per level grows 16-fold. Two consecutive ratios >= 8 (the larger runs long enough to measure), or one
+    /// ratio >= 64, is a violation: the analysis would not return for the nesting depths real files reach.
+    fn nesting_growth(&self, ctx: &mut Ctx) {
+        fn cpu_ns() -> u64 {
+            let mut ts = libc::timespec { tv_sec: 0, tv_nsec: 0 };
+            unsafe { libc::clock_gettime(libc::CLOCK_THREAD_CPUTIME_ID, &mut ts) };
+            ts.tv_sec as u64 * 1_000_000_000 + ts.tv_nsec as u64
+        }
+        fn measure(text: &str) -> Option<u64> {
+            let w = Workspace::single(text);
+            let mut best = u64::MAX;
+            for _ in 0..3 {
+                let t0 = cpu_ns();
+                let r = guard(|| {
+                    let l = ws::load(&w);
+                    l.analysis().diagnostics().len()
+                });
+                let dt = cpu_ns() - t0;
+                if r.is_err() {
+                    return None; // a panic is the sweep's business
+                }
+                best = best.min(dt);
+            }
+            Some(best)
+        }
+        // (name, prefix, open, seed, close, suffix): text = prefix open^d seed close^d suffix
+        let shapes: [(&str, &str, &str, &str, &str, &str); 16] = [
+            ("list-first", "defvar v = ", "[", "1", ", 2]", ";\n"),
+            ("list-last", "defvar v = ", "[2, ", "1", "]", ";\n"),
+            ("list-only", "defvar v = ", "[", "1", "]", ";\n"),
+            ("dag-arg", "def op;\ndefvar v = ", "(op ", "1", ", 2)", ";\n"),
+            ("dag-last", "def op;\ndefvar v = ", "(op 2, ", "1", ")", ";\n"),
+            ("add-first", "defvar v = ", "!add(", "1", ", 2)", ";\n"),
+            ("add-last", "defvar v = ", "!add(2, ", "1", ")", ";\n"),
+            ("if-then", "defvar v = ", "!if(true, ", "1", ", 2)", ";\n"),
+            ("if-else", "defvar v = ", "!if(false, 2, ", "1", ")", ";\n"),
+            ("cond", "defvar v = ", "!cond(true: ", "1", ")", ";\n"),
+            ("foreach-body", "defvar v = ", "!foreach(x, [1], ", "1", ")", ";\n"),
+            ("foldl-body", "defvar v = ", "!foldl(0, [1], a, b, ", "1", ")", ";\n"),
+            ("paste", "defvar v = ", "\"a\" # (", "\"b\"", ")", ";\n"),
+            ("class-ref", "class A<int x> { int f = x; }\ndefvar v = ", "A<", "1", ">.f", ";\n"),
+            ("stmt-if", "", "if true then { ", "def d;", " }", "\n"),
+            ("stmt-foreach-let", "class C { int f = 1; }\n", "foreach i = [1] in let f = 2 in { ", "def : C;", " }", "\n"),
+        ];
+        for (name, prefix, open, seed, close, suffix) in shapes {
+            let text = |d: usize| format!("{}{}{}{}{}", prefix, open.repeat(d), seed, close.repeat(d), suffix);
+            ctx.eval();
+            ctx.current_text(&text(18));
+            let mut verdict: Option<String> = None;
+            if let (Some(t10), Some(t14)) = (measure(&text(10)), measure(&text(14))) {
+                let r1 = t14 as f64 / t10.max(1) as f64;
+                ctx.metric_max("nesting_growth_ratio_per_4_levels_max", r1);
+                if r1 >= 64.0 && t14 >= 20_000_000 {
+                    verdict = Some(format!("depth 10: {} us, depth 14: {} us (x{:.0})", t10 / 1000, t14 / 1000, r1));
+                } else if let Some(t18) = measure(&text(18)) {
+                    let r2 = t18 as f64 / t14.max(1) as f64;
+                    ctx.metric_max("nesting_growth_ratio_per_4_levels_max", r2);
+                    if r1 >= 8.0 && r2 >= 8.0 && t18 >= 20_000_000 {
+                        // once more, to be sure
+                        if let (Some(a), Some(b)) = (measure(&text(14)), measure(&text(18))) {
+                            if b as f64 / a.max(1) as f64 >= 8.0 {
+                                verdict = Some(format!("depth 10: {} us, depth 14: {} us (x{:.0}), depth 18: {} us (x{:.0})", t10 / 1000, t14 / 1000, r1, t18 / 1000, r2));
+                            }
+                        }
+                    }
+                }
+            }
+            ctx.feature("nesting_growth_shapes");
+            ctx.nontrivial(fnv64(name.as_bytes()) ^ 0x77);
+            if let Some(v) = verdict {
+                ctx.violation(
+                    format!("nesting:exponential-work:{}", name),
+                    format!("diagnostics of a {}-nest: {} - the work multiplies with every level (polynomial work grows about 3-fold per 4 levels)", name, v),
+                    case_of(&Workspace::single(&text(18)), "nesting-growth"),
+                );
+            }
+        }
+    }
 }
 
 /// the included file of the fuzz target harness/vfuzz/fuzz/fuzz_targets/ide_sweep.rs
@@ -431,6 +512,9 @@ impl Check for SwCheck {
             let single = Workspace::single(s);
             let two = Workspace { files: vec![("/ws/main.td".into(), format!("include \"inc.td\"\n{}", s)), ("/ws/inc.td".into(), s.to_string())], root: 0 };
             ctx.feature("stress_patterns");
+            if self.mode == SMode::Totality && unit == gen_units {
+                self.nesting_growth(ctx);
+            }
             for base in [single, two] {
                 let pieces = texts::split_pieces(s);
                 for (w, state) in derived_states(&base, &mut rng, pieces.len(), ctx.tier.pick(30, 200)) {
@@ -467,7 +551,7 @@ impl Check for SwCheck {
     fn rule(&self) -> String {
         let states = format!("workspace states: generated multi-file programs (G-prog, a third of them with non-ASCII comments/strings glued to identifiers and CRLF), and for each its token-boundary prefixes, character-cut prefixes and single-token edits (delete, insert, duplicate, transpose, replace, byte noise, non-ASCII, EOL conversion) of the root and of one included file; {} hand-written semantic stress patterns (self/mutual parents, name-prefix parents, self-typed fields, redefinitions of classes/defs/fields/template arguments, shadowing chains, defsets in defsets, defm of undefined/self multiclasses, keyword-only statements, every bang operator with wrong arguments) alone and as an included file, with every token prefix and random edits; the 39 corpus files. On every state the full query sweep runs: diagnostics, and per file document symbols, folding ranges, document links, inlay hints for the full range, empty ranges and sub-ranges, and per offset (every char boundary of files <= 600 bytes, token boundaries + middles otherwise) go-to-definition, references, hover, completion with and without the '!' trigger", STRESS.len());
         match self.mode {
-            SMode::Totality => format!("{}. Oracle: no query panics (each is individually guarded and attributed), no stack overflow on the 2 MiB stack the server uses, no unit exceeds its CPU budget. non-trivial = a derived (broken) state or non-ASCII text; distinct by digest of all texts + root", states),
+            SMode::Totality => format!("{}. Oracle: no query panics (each is individually guarded and attributed), no stack overflow on the 2 MiB stack the server uses, no unit exceeds its CPU budget; NESTING GROWTH: for 16 nestable constructs (list, dag, operator arguments, !if/!cond arms, operator bodies, paste, class reference, nested statements; nested in first and in last position) the thread CPU time of load + diagnostics at depths 10, 14, 18 - two consecutive 4-level ratios >= 8 (polynomial work: about 3) or one >= 64 mean the work multiplies per level, i.e. the analysis does not return for the depths real files reach. non-trivial = a derived (broken) state or non-ASCII text; distinct by digest of all texts + root", states),
             SMode::Coherence => format!("{}. Oracle at every swept offset where go-to-definition answers: an identifier token lies under the cursor; the target is an identifier token of the named file with the same text; every reference is such a token; go-to-definition from each reference gives the same target; the cursor identifier is the target or one of the references. Identifier tokens are looked up in a fresh syntax::parse of the named file. non-trivial as above", states),
             SMode::Ranges => format!("{}. Oracle: every range in every result (diagnostics, symbols and children, folding, links and their targets, hint positions, definitions, references) names a file in the key set of diagnostics(), lies within that file's current text, on UTF-8 character boundaries, start <= end. ON THE WIRE: additional units drive the real server in process on generated multi-file workspaces whose files have deliberately different line structures (1-30 leading blank lines in some, malformed tails in some, non-ASCII, CRLF/mixed); every URI in every answer (definition, references with declaration, documentSymbol, foldingRange, documentLink incl. targets, inlayHint, publishDiagnostics) must name a workspace file and every position must exist in the current text of the file it is attached to: the line exists, the UTF-16 column is at most the line's width and does not split a surrogate pair, start <= end. non-trivial as above", states),
         }
@@ -477,6 +561,7 @@ impl Check for SwCheck {
         let mut v = vec![("base_workspaces", n), ("base_with_includes", n / 4), ("state:prefix", n * 10), ("state:edit-delete", n), ("state:edit-replace", n), ("state:lead-in-char", n * 5), ("stress_patterns", STRESS.len() as u64), ("corpus_files", 39), ("base:non-ascii-adjacent", n / 6)];
         match self.mode {
             SMode::Coherence => v.extend([("goto_answers", n * 100), ("reference_roundtrips", n * 20)]),
+            SMode::Totality => v.push(("nesting_growth_shapes", 16)),
             SMode::Ranges => v.extend([("ranges_checked", n * 1000), ("wire:workspaces", tier.pick(90, 2400)), ("wire:ranges_checked", tier.pick(3000, 100_000)), ("wire:references_answers", tier.pick(1000, 30_000)), ("wire:answers_naming_another_file", tier.pick(300, 10_000))]),
             _ => {}
         }
